@@ -760,6 +760,10 @@ def must_pass(f, mset, from_bbs=None, to_bbs=None, success_only=True, after=True
     S = mset.blocks_in(f) if isinstance(mset, MustSet) else set(mset)
     if to_bbs is None:
         to_bbs = f.return_blocks()
+    else:
+        # "passes S before reaching the target": the target's own call does not count (a target whose callee happens to
+        # be in the must-set, e.g. rewrite_atomic ending in fsync_directory, would make the question vacuous)
+        S = set(S) - set(to_bbs)
     to_bbs = set(to_bbs)
     if not to_bbs:
         return False
